@@ -73,9 +73,9 @@ func catalogue() []catMsg {
 		msg       jsonrpc2.Message
 	}{
 		{"call", "num", must(jsonrpc2.NewCall(jsonrpc2.NewNumberID(1), "m", "a"))},
-		{"notify", "none", must(jsonrpc2.NewNotification("n", "\u00e9"))},                                 // 2-byte character
+		{"notify", "none", must(jsonrpc2.NewNotification("n", "\u00e9"))},                                           // 2-byte character
 		{"call", "str", must(jsonrpc2.NewCall(jsonrpc2.NewStringID("x\u20acy"), "textDocument/x", "\u65e5\u672c"))}, // 3-byte characters, also in the id
-		{"response", "num", must(jsonrpc2.NewResponse(jsonrpc2.NewNumberID(7), "\U0001F600", nil))},       // 4-byte character
+		{"response", "num", must(jsonrpc2.NewResponse(jsonrpc2.NewNumberID(7), "\U0001F600", nil))},                 // 4-byte character
 		{"response", "str", must(jsonrpc2.NewResponse(jsonrpc2.NewStringID("id-\u00fc"), map[string]string{"k": "\u00fc\u00df"}, nil))},
 		{"response", "num", must(jsonrpc2.NewResponse(jsonrpc2.NewNumberID(2147483647), nil, jsonrpc2.NewError(jsonrpc2.InvalidParams, "bad \u00e9")))},
 		{"notify", "none", must(jsonrpc2.NewNotification("window/logMessage", long))}, // three-digit length
